@@ -142,10 +142,11 @@ Qed.
 Theorem regcomp_fits pat p : regcomp pat = Ok (Some p) -> (Z.of_nat (length (code p)) <= reserve p)%Z.
 Proof.
   unfold regcomp, parse_pat. destruct (rnode_parse (parse_fuel pat) pat) as [[[t|] s']| |] eqn:E; cbn [bind fst]; try discriminate.
+  destruct ((0 <=? NINST)%Z && (NINST <=? count t + 3)%Z) eqn:L; [discriminate|].
   intro H; inversion H; subst; clear H. cbn [code reserve].
   pose proof (rnode_parse_wf _ _ _ _ E) as W.
   cbn [app length]. rewrite app_length, emit_n_length by (apply grpnum_wf; exact W). cbn [length]. rewrite grpnum_nlen.
-  pose proof (emit_fits t W). lia.
+  destruct (emit_fits t W) as [F|[F0 F1]]; lia.
 Qed.
 
 Lemma documented_depth : (256 <= NDEPT)%Z.
